@@ -243,6 +243,7 @@ static void emit_line(const char *line) {
   fprintf(fops, "%s\n", line); fflush(fops);
   strncpy(copy, line, sizeof copy - 1); copy[sizeof copy - 1] = 0;
   exec_line(copy);
+  fflush(fout);          /* so that a sanitizer abort in the NEXT op is attributed to that op */
 }
 
 static void words_to_str(char *dst, size_t dsz, int inf, int n, unsigned long *ws) {
